@@ -458,6 +458,33 @@ func solveUnits(rs []*UnitResult, opts solveOpts) {
 		}()
 	}
 	wg.Wait()
+	// Second chance. An obligation that ended without an answer (timeout, unknown, solver error) on a loaded machine
+	// is asked again once everything else is done: four times the budget, all solvers at once and z3 under two more
+	// random seeds. Only a definite "unsat" discharges; a definite "sat" is kept as the counterexample.
+	var again []job
+	for _, j := range jobs {
+		if !j.o.Canary && j.o.Kind != "ovf" && j.o.Status != "unsat" && j.o.Status != "sat" {
+			again = append(again, j)
+		}
+	}
+	sem2 := make(chan struct{}, max(1, opts.par/4))
+	for _, j := range again {
+		o, e := j.o, j.e
+		wg.Add(1)
+		sem2 <- struct{}{}
+		go func() {
+			defer wg.Done()
+			defer func() { <-sem2 }()
+			to := 4 * opts.timeout
+			q := e.buildQuery(o, int(to.Milliseconds()))
+			best, tried := solveAgain(q, opts.workdir, o.Name, to)
+			o.Tried = append(o.Tried, tried...)
+			if best.Status == "unsat" || best.Status == "sat" {
+				o.Status, o.Solver, o.Ms = best.Status, best.Solver+"(retry)", o.Ms+best.Ms
+			}
+		}()
+	}
+	wg.Wait()
 }
 
 func (r *UnitResult) summary() string {
